@@ -51,6 +51,7 @@ INITS = {
     'bfile': [('set', 'a', ('$B', 13), None, None)],
     'expired': [('set', 'a', ('$T', 13), 1, None), ('tick', 2)],
     'two': [('set', 'b', 1, None, None), ('set', 'a', 7, None, None)],
+    'fileq': [('push', ('$T', 13), None, 'back', None, None)],
 }
 
 
@@ -102,6 +103,17 @@ def plan(tier):
     units.append(([[('rkeys',)], [('set', 'c', 1, None, None),
                                   ('delete', 'a')]], 'inline', 'own', MFS,
                   None))
+    # a lookup against delete + insert of another key (row id reuse)
+    for look in (GET, GETITEM, ('read', 'a')):
+        units.append(([[look], [DELETE, ('set', 'c', BIG2, None, None)]],
+                      'file', 'own', MFS, 2))
+        units.append(([[look], [POP, ('add', 'c', BIG2, None, None)]],
+                      'bfile', 'own', MFS, 2))
+    # a handle being opened while another client writes (constructor runs
+    # ~70 statements against the shared directory)
+    for w in (SET_FILE, ('set', 'c', 1, None, None), POP, DELETE, INCR):
+        units.append(([[('open',)], [w]], 'file' if w is not INCR
+                      else 'inline', 'own', MFS, 2))
     if tier == 'thorough':
         writes = [SET_INLINE, SET_FILE, ADD, INCR, POP, DELETE]
         reads = [GET, CONTAINS, LEN]
